@@ -81,6 +81,7 @@ def run(tier, seed):
     netcommon.mc_and_replay(v, wd, "randr", 300 if tier == "quick" else 3000, False, workers=12, extra=["-seed", str(seed + 3000)])
     # patterns inside fused rules (regex sets) and one pattern text under different anchorings in one engine
     netcommon.mc_and_replay(v, wd, "c05", 2, False)
+    vlib.scale_stage(v, wd, "C02")
     return v.finish("model_checking",
                     "M1/M2: all pattern bodies of length 1..%d over {a,b,.,/,^,*} and over {a,+,(,.,/,^} x 3 left anchors x 2 right anchors x 30 URLs whose hosts repeat the anchor text; a pattern is non-trivial if it matches at least one URL of the universe. M3: seeded random patterns (len<=14, wider alphabet) x random URLs validated by TLC against the same Ideal operator" % maxlen,
                     exhaustive=True)
